@@ -173,7 +173,11 @@ func isStructural(name string) bool {
 }
 
 // mutationSubject picks a well-formed genome for a mutation case, shaped for the op
+// grownReg: when the subject was grown beyond the pool's registry, the registry it was grown with (counters above its numbers)
+var grownReg *genetics.Population
+
 func mutationSubject(g *G, name string) (*genetics.Genome, *Pool, string) {
+	grownReg = nil
 	p := g.poolOf(6)
 	gn := cloneGenome(p.pick(g))
 	family := "evolved:" + p.origin
@@ -204,6 +208,28 @@ func mutationSubject(g *G, name string) (*genetics.Genome, *Pool, string) {
 			}
 		}
 	}
+	if (name == "mutAddNode" || name == "mutToggle" || name == "mutReenable") && g.chance(0.25) {
+		// a LARGE genome (>= 15 genes: the second, retry-based gene selection of add-node) most of whose genes are disabled,
+		// reached with the real operators: structural growth on a private registry, then many enable toggles
+		reg := clonePopReg(p.pop)
+		o := randOpts(g)
+		rand.Seed(g.seed63())
+		func() {
+			defer func() { _ = recover() }()
+			for tries := 0; len(gn.Genes) < 15+g.intn(6) && tries < 80; tries++ {
+				gn.Phenotype = nil
+				if g.chance(0.5) {
+					_, _ = genetics.VerifMutateAddNode(gn, reg, reg, o)
+				} else {
+					_, _ = genetics.VerifMutateAddLink(gn, reg, 1, o)
+				}
+			}
+			_, _ = genetics.VerifMutateToggleEnable(gn, 100+g.intn(400))
+		}()
+		gn.Phenotype = nil
+		family += "/large-mostly-disabled"
+		grownReg = reg
+	}
 	return gn, p, family
 }
 
@@ -218,6 +244,9 @@ func opMutate(g *G, name string) (interface{}, []uint64, int, interface{}) {
 	}
 	// the pool's registry plays the role of the population; work on a private copy
 	pop := clonePopReg(pool.pop)
+	if grownReg != nil {
+		pop = grownReg
+	}
 	regMode := "pool"
 	switch g.intn(4) {
 	case 0:
